@@ -94,8 +94,8 @@ OrdersWide ==
    lex  |-> {Load(p, v) : p \in DateProps, v \in {LxYear, LxFrac, LxYmd}}]
 \* orders of 3 assignments (thorough)
 OrdersDeep ==
-  [str  |-> {SetStr("title", Mixed(255)), SetStr("title", Pure(1, 256)), SetStr("keywords", Pure(2, 1)), SetStr("keywords", <<>>)},
-   date |-> {SetDate("created", Y999), SetDate("created", Leap), SetDate("last_printed", EndOfTime), BadDate("created", "none")},
+  [str  |-> {SetStr("title", Mixed(255)), SetStr("title", Pure(1, 256)), SetStr("keywords", Pure(2, 1))},
+   date |-> {SetDate("created", Y999), SetDate("created", Leap), SetDate("last_printed", EndOfTime)},
    rev  |-> {SetRev("int", 7), SetRev("int", 0)},
    lex  |-> {Load("created", LxYear), Load("last_printed", LxFrac)}]
 
